@@ -248,9 +248,6 @@ theorem c17_src_labels_refine (o : PlotOps D A F M C (Nat × String)) (ds : D) (
       zs.map zOf = prepareZVals m call ∧
       takeLabels zs.length it = some (prepareZLabels (prepareZVals m call)) := by
   obtain ⟨zs, h1, h2⟩ := c17_src_zvals_refines o ds m call ho grid mode
-  have hkey : ∀ z : PZ (Nat × String), (match zOf z with | .coord _ l => some l | .var n => some n | .single => none) =
-      if z.isNone then none else some (PZ.key o.str z) := by
-    intro z; rcases z with ⟨i, l⟩ | s | _ <;> simp [zOf, PZ.isNone, PZ.key, ho.2]
   by_cases hc : (call.z.isSome || (call.z.isNone && call.multi)) = true
   · obtain ⟨it, h3, h4⟩ := c17_src_zlabels_order o call.z (call.z.isNone && call.multi) zs hc
     refine ⟨_, zs, it, h1, h3, h2, ?_⟩
@@ -258,7 +255,7 @@ theorem c17_src_labels_refine (o : PlotOps D A F M C (Nat × String)) (ds : D) (
     simp only [prepareZLabels, map_map, Option.some.injEq]
     apply map_congr_left
     intro z hz
-    simp only [Function.comp_def, hkey]
+    simp only [Function.comp_def]
     have : z.isNone = false := by
       have hmem : zOf z ∈ prepareZVals m call := by rw [← h2]; exact mem_map_of_mem hz
       cases hzz : call.z with
